@@ -22,7 +22,7 @@ PROP = "C10"
 RULE = (
     "classes with 3 fields (a_x required, b aliased 'bee' with default, c with default) and 1..2 validators (plus 3 on "
     "a reduced alphabet: 12 (deps, kind) descriptors in quick, 16 in thorough): each validator has an enumerated dependency set (every non-empty subset of the fields, read "
-    "directly, through a helper method, through two helper methods calling each other, through a property, through a functools.cached_property, or through a diamond of helper methods shared by the validators), a kind in {plain, validator(field), validator(f, discard=g), validator(discard=g) for "
+    "directly, through a helper method, through two helper methods calling each other, through a property, plus an init-only parameter (InitVar field) taken by the first validator, through a functools.cached_property, or through a diamond of helper methods shared by the validators), a kind in {plain, validator(field), validator(f, discard=g), validator(discard=g) for "
     "every field g}, an error style in {raise, yield message, yield (get_alias(self).f, message), yield (0, message)}, declared in the class or "
     "in a base class, or in a generic class deserialized as V[int] (also with the helper method it reads overridden in the subclass deserialized); x every datum assigning each field one of {absent, valid, invalid} x every pass/fail vector x aliaser "
     "in {identity, camelCase}. Observed: the exact sequence of validators invoked (each logs its name first), the sorted "
@@ -32,7 +32,7 @@ RULE = (
 )
 
 FIELDS = ["a_x", "b", "c"]
-ALIAS = {"a_x": "a_x", "b": "bee", "c": "c"}
+ALIAS = {"a_x": "a_x", "b": "bee", "c": "c", "p": "p"}
 REQUIRED = {"a_x"}
 READ = {"a_x": "self.a_x", "b": "self.helper_b()", "c": "self.prop_c"}
 
@@ -48,7 +48,7 @@ KINDS = [("plain", None)] + [("field", f) for f in FIELDS] + [("discard", f) for
 STYLES = ["raise", "yield", "yield_path", "yield_index0"]
 
 
-def validator_src(name: str, deps, kind, style, by_name: bool = False, cycle: bool = False) -> List[str]:
+def validator_src(name: str, deps, kind, style, by_name: bool = False, cycle: bool = False, param: bool = False) -> List[str]:
     k, target = kind
     L = []
     t = repr(target) if by_name else target  # a field inherited from a base class is named by a string
@@ -61,7 +61,7 @@ def validator_src(name: str, deps, kind, style, by_name: bool = False, cycle: bo
         L.append(f"    @validator({f_!r}, discard={g_!r})" if by_name else f"    @validator({f_}, discard={g_})")
     else:
         L.append(f"    @validator(discard={t})")
-    L.append(f"    def {name}(self):")
+    L.append(f"    def {name}(self, p):" if param else f"    def {name}(self):")
     L.append(f"        LOG.append({name!r})")
     # a_x is read through a diamond of helpers by the first validator (via1 -> h_ax <- via2) and through one
     # branch only by the others: the dependency analysis of a helper must not depend on who asked first
@@ -95,6 +95,10 @@ def class_src(cname: str, vals: List[tuple], inherit: bool) -> str:
         "    a_x: int = field()",
         "    b: int = field(default=0, metadata=alias('bee'))",
     ]
+    with_param = inherit in ("param", "override_param")
+    if with_param:
+        # an init-only parameter read by the first validator (declared dependency, besides the attributes it reads)
+        head.append("    p: InitVar[int] = field(default=0, metadata=init_var(int))")
     helpers = [
         "    def h_ax(self):",
         "        return self.a_x",
@@ -112,7 +116,7 @@ def class_src(cname: str, vals: List[tuple], inherit: bool) -> str:
         "        return self.c",
     ]
     L = []
-    if inherit and inherit not in ("generic", "cycle"):
+    if inherit and inherit not in ("generic", "cycle", "param"):
         base_ok = all(d in ("a_x", "b") for d in vals[0][1]) and (vals[0][2][1] in (None, "a_x", "b", "a_x>b", "b>a_x"))
         if not base_ok:
             return ""
@@ -120,12 +124,12 @@ def class_src(cname: str, vals: List[tuple], inherit: bool) -> str:
         L.append(f"class B{cname}:")
         L += head
         L += helpers[:8]
-        L += validator_src(*vals[0])
+        L += validator_src(*vals[0], param=with_param)
         L.append("@dataclass")
         L.append(f"class {cname}(B{cname}):")
         L.append("    c: int = field(default=0)")
         L += helpers[8:]
-        if inherit == "override":
+        if inherit in ("override", "override_param"):
             # the helper read by the inherited validator is overridden: in this class its dependency is c, not b
             L += ["    def helper_b(self):", "        return self.c"]
         for v in vals[1:]:
@@ -139,14 +143,15 @@ def class_src(cname: str, vals: List[tuple], inherit: bool) -> str:
         L += helpers
         if inherit == "cycle":
             L += ["    def cyc_a(self, n=0):", "        return self.a_x + (self.cyc_b(n - 1) if n else 0)", "    def cyc_b(self, n=0):", "        return self.b + (self.cyc_a(n - 1) if n else 0)"]
-        for v in vals:
-            L += validator_src(*v, cycle=inherit == "cycle")
+        for k_, v in enumerate(vals):
+            L += validator_src(*v, cycle=inherit == "cycle", param=with_param and k_ == 0)
     return "\n".join(L)
 
 
-def data_vectors() -> Iterator[Dict[str, str]]:
-    for combo in itertools.product(("absent", "valid", "invalid"), repeat=3):
-        yield dict(zip(FIELDS, combo))
+def data_vectors(with_param: bool = False) -> Iterator[Dict[str, str]]:
+    fields = FIELDS + ["p"] if with_param else FIELDS
+    for combo in itertools.product(("absent", "valid", "invalid"), repeat=len(fields)):
+        yield dict(zip(fields, combo))
 
 
 def make_datum(vec: Dict[str, str], aliaser) -> Dict[str, Any]:
@@ -163,7 +168,8 @@ def reference(vals: List[tuple], vec: Dict[str, str], fails: Dict[str, bool], al
     """(log, sorted errors, constructed?).  Order: declaration order within a class; between a class
     and its bases the property fixes nothing but 'a fixed order' — the library documents MRO order
     (derived class first), which is what is compared."""
-    if inherit and inherit not in ("generic", "cycle"):
+    v0 = vals[0][0]
+    if inherit and inherit not in ("generic", "cycle", "param"):
         vals = list(vals[1:]) + [vals[0]]
     errors: List[Tuple[tuple, str]] = []
     invalid = set()
@@ -180,9 +186,11 @@ def reference(vals: List[tuple], vec: Dict[str, str], fails: Dict[str, bool], al
     for name, deps, (kind, target), style in vals:
         declared = deps
         deps = set(deps)
-        if inherit == "override":
+        if inherit in ("override", "override_param"):
             # helper_b is overridden in the class deserialized: whoever reads b through it reads c
             deps = {"c" if d == "b" else d for d in deps}
+        if inherit in ("param", "override_param") and name == v0:
+            deps = deps | {"p"}
         if inherit == "cycle" and "a_x" in deps:
             deps = deps | {"b"}
         if not (deps & provided):
@@ -234,7 +242,7 @@ def run_class(mod, cname, vals, inherit, st: infra.Stats):
         except Exception as e:
             st.violation({"signature": {"kind": "compile_exception", "exc": type(e).__name__}, "what": f"{describe(vals)}: {e!r}"[:300], "validators": repr(vals), "inherit": inherit})
             return
-        for vec in data_vectors():
+        for vec in data_vectors(inherit in ("param", "override_param")):
             d = make_datum(vec, aliaser)
             for outcome in itertools.product((False, True), repeat=len(vals)):
                 fails = dict(zip(names, outcome))
@@ -308,6 +316,13 @@ def class_space(tier: str) -> Iterator[Tuple[List[tuple], bool]]:
     for (d0, k0), (d1, k1) in itertools.product(dk, dk):
         if k0[0] in ("plain", "field") and k1[0] in ("plain", "discard"):
             yield [("v0", d0, k0, "raise"), ("v1", d1, k1, "yield_path")], "generic"
+    # the first validator takes an init-only parameter (InitVar field): a declared dependency besides the attributes read;
+    # alone, and inherited by a subclass overriding the helper it reads
+    for (d0, k0), (d1, k1) in itertools.product(dk, dk):
+        if k0[0] == "plain" and k1[0] in ("plain", "discard") and len(d1) == 1:
+            yield [("v0", d0, k0, "raise"), ("v1", d1, k1, "raise")], "param"
+            if "b" in d0 and all(d in ("a_x", "b") for d in d0):
+                yield [("v0", d0, k0, "raise"), ("v1", d1, k1, "raise")], "override_param"
     # a_x read through mutually recursive helpers, entered by a different helper in each validator
     for (d0, k0), (d1, k1) in itertools.product(dk, dk):
         if "a_x" in d0 and "a_x" in d1 and k0[0] in ("plain", "discard") and k1[0] in ("plain", "field"):
